@@ -28,6 +28,9 @@ TIME = valueclass("Time", [Instant], [("nanoseconds", Int)])
 INSTANT = valueclass("Instant", [Instant, _InfiniteInstant], [("nanoseconds", Int)])
 DURATION = valueclass("Duration", [Duration], [("nanoseconds", Int)])
 MAXSIZE = sys.maxsize
+# typing invariant of the value class: an _InfiniteInstant always carries sys.maxsize (its __init__)
+INSTANT.wf_fn = lambda dt, t: z3.And(z3.Or(dt.tag(t) == 0, dt.tag(t) == 1),
+                                     z3.Implies(dt.tag(t) == 1, dt.nanoseconds(t) == MAXSIZE))
 
 
 def ns(t):
